@@ -28,12 +28,24 @@ def run(ctx):
     r147(ctx)
     r148(ctx)
     r149(ctx)
+    r1410(ctx)
+    from . import c08 as _c08
+    _c08.r83(ctx, ctx.repo['writer'], ctx.repo['api'], ctx.repo['util'], ctx.repo['core'])    # one path grammar on every parser
+    _c08.r86(ctx, ctx.repo['util'])     # directory text typed int before float
     from . import c08
     c08.r85(ctx)
 
     # R14.2
     n = meta_rules.filepath_rule(ctx, 'R14.2', only={'util'})
-    ctx.floor('R14.2', 'file_path stores in util', n, 4)
+    meta_rules.filepath_text_rule(ctx, 'R14.2', only={'util', 'api'})
+    # every chunk gets its path on either route: the legacy route once or per scheme arm, the concurrent-footer route
+    # for the first file's chunks and for the chunks of every fetched footer
+    leg = [st for st in iter_child_stmts(f.body) if isinstance(st, ast.If) and norm(st.test) == 'legacy']
+    stores = [st for st in walk_no_nested(f) if isinstance(st, ast.Assign) and isinstance(st.targets[0], ast.Attribute) and st.targets[0].attr == 'file_path']
+    in_leg = [st for st in stores if leg and any(st is y for y in ast.walk(leg[0]))]
+    ctx.ob('R14.2', 'util.metadata_from_many:legacy-route-re-paths-the-chunks', len(leg) == 1 and len(in_leg) >= 1, '%d store(s)' % len(in_leg), ut.loc(f))
+    ctx.ob('R14.2', 'util.metadata_from_many:concurrent-route-re-paths-first-file-and-fetched-footers', len(stores) - len(in_leg) >= 2,
+           '%d store(s) outside the legacy block' % (len(stores) - len(in_leg)), ut.loc(f))
     meta_rules.rowcount_rule(ctx, 'R14.2', only_modules={'util'})
     sums = [norm(s) for s in iter_child_stmts(f.body) if isinstance(s, ast.Assign) and norm(s.targets[0]).endswith('.num_rows')]
     ctx.ob('R14.2', 'util.metadata_from_many:both-arms-recount-rows-over-the-final-list',
@@ -296,3 +308,31 @@ def r149(ctx, rule='R14.9'):
         except _re.error as e:
             d = 'pattern %r: %s' % (pat, e)
     ctx.ob(rule, 'api.ParquetFile.basepath:strips-the-summary-file-name-also-from-a-bare-name', ok, d, api.loc(g))
+
+
+def r1410(ctx, rule='R14.10'):
+    """ParquetFile.__init__, glob pattern: the files are the ones the caller's pattern selects - the list handed to
+    metadata_from_many is the glob result itself.  (The suffix filter belongs to the directory listing, which sees
+    every file of the tree; a pattern says for itself what it wants.)"""
+    api = ctx.repo['api']
+    f = api.func('ParquetFile.__init__')
+    cfg = CFG(f)
+    rd = ReachingDefs(cfg)
+    calls = [st for st in walk_no_nested(f) if isinstance(st, ast.Assign) and callee(st.value) == 'metadata_from_many'
+             and any(isinstance(c, ast.Call) and norm(c.func).endswith('.glob') for c in ast.walk(f))]
+    globs = [st for st in walk_no_nested(f) if isinstance(st, ast.Assign) and isinstance(st.value, ast.Call) and norm(st.value.func).endswith('.glob')]
+    ctx.ob(rule, 'api.ParquetFile.__init__:glob-branch-present', len(globs) == 1, '', api.loc(f))
+    if len(globs) != 1:
+        return
+    gname = norm(globs[0].targets[0])
+    ok, seen = False, []
+    for st in calls:
+        arg = st.value.args[0] if st.value.args else None
+        if not isinstance(arg, ast.Name):
+            continue
+        defs = rd.defs_reaching(cfg.node_of(st), arg.id)
+        seen = [norm(cfg.nodes[d].stmt)[:70] for d in defs if d != cfg.entry]
+        if cfg.node_of(globs[0]) in defs and arg.id == gname:
+            ok = True
+    ctx.ob(rule, 'api.ParquetFile.__init__:glob-result-opened-as-it-is', ok,
+           'definitions of the file list that reach metadata_from_many: %s; the glob result is `%s`' % (seen, norm(globs[0])[:60]), api.loc(globs[0]))
